@@ -75,7 +75,8 @@ const edSigBlank = "retract-rationale:blank-line-dropped"
 const edSigCollapsed = "retract-rationale:collapse-merged-block-comment"
 
 func edKnownCause(sig string) bool {
-	return strings.HasSuffix(sig, ":"+edSigInherited) || strings.HasSuffix(sig, ":"+edSigCollapsed) || strings.HasSuffix(sig, ":"+edSigBlank) || strings.HasSuffix(sig, ":go-prerelease")
+	return strings.HasSuffix(sig, ":"+edSigInherited) || strings.HasSuffix(sig, ":"+edSigCollapsed) || strings.HasSuffix(sig, ":"+edSigBlank) || strings.HasSuffix(sig, ":go-prerelease") ||
+		strings.HasSuffix(sig, ":remainder-is-marker")
 }
 
 // edRetractDetail pairs every typed retraction with the re-parsed one on the same output line and names
@@ -186,6 +187,12 @@ func edCheckC15(work bool, file string, ops []edOp) (sig, info string) {
 		if name == "require" {
 			// same (path, version) multiset but different indirect flags?
 			name = edRequireDetail(run.Typed, run.Reparsed)
+			if name == "require-indirect" {
+				// pair line by line and name the recorded structural cause, if it is the only one
+				if d := edIndirectDetail(run); d != "" {
+					name = d
+				}
+			}
 		}
 		sig, info = "c15-typed-vs-reparse:"+name, "typed "+want[i]+" reparsed "+got[i]
 		if !edKnownCause(sig) {
